@@ -344,6 +344,14 @@ def r20_1(ctx, u) -> None:
             continue
         if grown is None:
             continue
+        if how == "[...] = " and isinstance(grown, ast.Name):
+            # ``xs[i] = v`` on a list replaces an element, it cannot add one: every binding of xs is a list display,
+            # a list comprehension or list(...)
+            binds = [d.info.get("value") for d in cfg.nodes if d.kind == "store" and not d.tag and grown.id in node_defs(d)]
+            if binds and grown.id not in u.param_names() and all(
+                    isinstance(b, (ast.List, ast.ListComp)) or (isinstance(b, ast.Call) and norm(b.func).split(".")[-1] == "list")
+                    for b in binds):
+                continue
         v = ctx.vals.expr(u, value_expr, n)
         if not any(a[0] in ("item", "result", "user", "usernext", "libinst") for a in atoms_deep(v)):
             continue
@@ -414,9 +422,10 @@ def _window(ctx, u, cfg, name: Optional[str], grown: ast.AST, n: Node) -> Tuple[
                     "the initial fill is not bounded by range(n)")
         # the same fill written as an explicit loop: ``async for index, item in zip(range(n), ...): heap.append(...)``
         fills = [a for (k, a) in n.regions if k == "loop" and isinstance(a, (ast.AsyncFor, ast.For)) and isinstance(a.iter, ast.Call)
-                 and any(isinstance(x, ast.Call) and norm(x.func) == "range" for x in a.iter.args)]
+                 and (any(isinstance(x, ast.Call) and norm(x.func) == "range" for x in a.iter.args)
+                      or (isinstance(a, ast.For) and norm(a.iter.func) == "range"))]  # (zip(range(n), ..) or a plain range(n) loop)
         if fills and n.kind == "call" and norm(n.ast.func).split(".")[-1] == "append":
-            return True, "filled in a loop over zip(range(n), ...): at most n entries"
+            return True, "filled in a loop over (zip(..) of) range(n): at most n entries"
         return False, "the heap grows outside its initial fill"
     if short == "heapq.merge":
         fill_name = ctx.unit("heapq._KeyIter.from_iters").node.name  # (found structurally when renamed / moved)
